@@ -2,5 +2,6 @@
 package props
 
 import (
+	_ "verifharness/props/c10"
 	_ "verifharness/props/c14"
 )
